@@ -1,4 +1,5 @@
 import GB.C16.Proofs
+import GB.Stack.Lifecycle   -- STACK block at the end of this file (area `stack`)
 /-
   C16 — targets can be added, removed and re-added cleanly.  Property theorems only.
 
@@ -362,3 +363,325 @@ example : (runP true init [.new 0 false, .new 0 true, .get 0, .call 0, .close 0,
      .add .ok (some .absent)] := by decide
 example : GB.LTS.run cstep cinit [.reserve 0, .get 0, .reserve 0, .finish 0 0 false, .reserve 0, .finish 0 1 true, .get 0, .close 1]
     ≠ none := by decide
+
+/-! ═══════════════════════════════════════════════════════════════════════════════════════════════
+    STACK composition block (area `stack`, docs/notes/STACK.md) — BEGIN.
+    The lifecycle model of this file (names are numbers) composed with the combined model `GB.Stack.run`
+    (names are byte strings; C16 present set ∘ aggregateWatcher fan-out ∘ C06 tables) through any injective
+    numbering `enc` of the names.  Kept separate from the C16 theorems above; do not interleave.
+    ═══════════════════════════════════════════════════════════════════════════════════════════════ -/
+section StackBlock
+
+/-- **The lifecycle model and the routing tables agree on who is there**: along ANY ReflectionRouter history
+    (Adds that succeed, fail, are rejected or duplicate; Removes of present and absent names; polls), a name is in
+    the `targets` map of the C16 lifecycle model (⇒ by the C16 theorems: exactly one poller, open watchers, an open
+    pooled connection) iff it is present in the combined model, iff it is watched on BOTH routers of the C06 models.
+    From `C16_refines_present` and `Stack_latest`. -/
+theorem C16_stack_present (valid : Bytes → Bool) (enc : GB.C06.Name → Nat) (hinj : ∀ a b, enc a = enc b → a = b)
+    (h : List GB.Stack.Op) (n : GB.C06.Name) :
+    ((afterR true (stackToC16 enc h)).targets (enc n)).isSome = (GB.Stack.run valid GB.Stack.St.init h).present n ∧
+    (GB.Stack.run valid GB.Stack.St.init h).present n = (GB.C06.latestOf (GB.Stack.toC06 h)).watched n := by
+  have h1 := (C16_refines_present (stackToC16 enc h)).2 (enc n)
+  have h2 := stack_present_agree enc hinj h (fun _ => false) (fun _ => false) (fun _ => rfl) n
+  have h3 := (Stack_run_eq_compile valid h).2.2
+  have h4 := (Stack_latest h).2 n
+  refine ⟨?_, ?_⟩
+  · rw [← h1, h2, h3]; rfl
+  · rw [h3]; exact h4
+
+/-- **Remove, end to end**: when `Remove(T)` of a present name has returned, the lifecycle model has no entry for it
+    (`C16_remove`: poller stopped, watchers closed, connection closed) AND no lookup on either routing table answers
+    with `T` (`Stack_removed_unroutable`), while every other present name is still present on both sides. -/
+theorem C16_stack_remove (valid : Bytes → Bool) (eval : Bytes → GB.C06.Route → GB.C06.Outcome)
+    (enc : GB.C06.Name → Nat) (hinj : ∀ a b, enc a = enc b → a = b) (h : List GB.Stack.Op) (T : GB.C06.Name) :
+    let h' := h ++ [GB.Stack.Op.remove T]
+    let st := GB.Stack.run valid GB.Stack.St.init h'
+    (afterR true (stackToC16 enc h')).targets (enc T) = none ∧
+    (∀ S r, st.svc.routes S = some r → r.target ≠ T) ∧
+    (∀ m path v r, GB.C06.routeHTTP st.present eval st.pat.static m path ≠ .found T v r) := by
+  intro h' st
+  obtain ⟨hp, hs, hh, _⟩ := Stack_removed_unroutable valid eval h T
+  refine ⟨?_, hs, hh⟩
+  have := (C16_stack_present valid enc hinj h' T).1
+  rw [hp] at this
+  cases hx : (afterR true (stackToC16 enc h')).targets (enc T) with
+  | none => rfl
+  | some g => rw [hx] at this; simp at this
+
+section Restated
+open GB.C06 GB.Stack
+
+/-- `Stack_run_eq_compile` (GB/Stack/Props.lean), restated here so that `./check C16` audits it. -/
+theorem C16_stack_run_eq_compile (valid : Bytes → Bool) (h : List GB.Stack.Op) :
+    (run valid St.init h).pat = PatState.init.run valid (toC06 h) ∧
+    (run valid St.init h).svc = SvcState.init.run (toC06 h) ∧
+    (run valid St.init h).present = presentOf h :=
+  Stack_run_eq_compile valid h
+
+/-- `Stack_latest` (GB/Stack/Props.lean), restated here so that `./check C16` audits it. -/
+theorem C16_stack_latest (h : List GB.Stack.Op) :
+    latestOf (toC06 h) = specLatest h ∧ ∀ n, presentOf h n = (latestOf (toC06 h)).watched n :=
+  Stack_latest h
+
+/-- `Stack_failed_add_no_trace` (GB/Stack/Props.lean), restated here so that `./check C16` audits it. -/
+theorem C16_stack_failed_add_no_trace (valid : Bytes → Bool) (h : List GB.Stack.Op) (n : GB.C06.Name) (d : Option Desc) :
+    run valid St.init (h ++ [.addFail n]) = run valid St.init h ∧
+    (presentOf h n = true → run valid St.init (h ++ [.add n d]) = run valid St.init h) ∧
+    (presentOf h n = false → run valid St.init (h ++ [.remove n]) = run valid St.init h) :=
+  Stack_failed_add_no_trace valid h n d
+
+/-- `Stack_readd_new_contract` (GB/Stack/Props.lean), restated here so that `./check C16` audits it. -/
+theorem C16_stack_readd_new_contract (valid : Bytes → Bool) (eval : Bytes → Route → GB.C06.Outcome) (h : List GB.Stack.Op) (T : GB.C06.Name)
+    (d' : Desc) (habs : presentOf h T = false) :
+    let h' := h ++ [.add T (some d')]
+    let st := run valid St.init h'
+    (specLatest h').desc T = some (named T d') ∧
+    (∀ S r, st.svc.routes S = some r → r.target = T → listed (named T d').services S ∧ r.ver = d'.ver) ∧
+    (∀ m path v r, routeHTTP st.present eval st.pat.static m path = .found T v r →
+        v = d'.ver ∧ ∃ rs, built valid (named T d') m = some rs ∧ r ∈ rs) :=
+  Stack_readd_new_contract valid eval h T d' habs
+
+/-- `Stack_removed_unroutable` (GB/Stack/Props.lean), restated here so that `./check C16` audits it. -/
+theorem C16_stack_removed_unroutable (valid : Bytes → Bool) (eval : Bytes → Route → GB.C06.Outcome) (h : List GB.Stack.Op) (T : GB.C06.Name) :
+    let st := run valid St.init (h ++ [.remove T])
+    st.present T = false ∧
+    (∀ S r, st.svc.routes S = some r → r.target ≠ T) ∧
+    (∀ m path v r, routeHTTP st.present eval st.pat.static m path ≠ .found T v r) ∧
+    (∀ S r, (run valid St.init h).svc.routes S = some r → r.target ≠ T → st.svc.routes S = some r) :=
+  Stack_removed_unroutable valid eval h T
+
+end Restated
+
+example : ((afterR true (stackToC16 stackEnc [.add [97] none, .addFail [98], .remove [97], .add [97] none])).targets
+    (stackEnc [97])).isSome = true := by
+  rw [(C16_stack_present (fun _ => true) stackEnc stackEnc_injective _ [97]).1]; decide
+
+end StackBlock
+/-! STACK composition block — END -/
+/-! ## deepening: counting, exclusive New, AdaptedClientConn in detail -/
+
+
+/-- Counting: after any history whose names are below `N`, the number of live resolver pollers, of open
+    connections, of open pattern watchers and of open service watchers each equals the cardinality of `present`
+    (`targetCount`), and no name outside the bound is present. -/
+theorem C16_pollers_eq_present (ops : List ROp) (N : Nat) (hN : ∀ op ∈ ops, opName op < N) :
+    let s := afterR true ops
+    pollers s = targetCount s N ∧
+    ((List.range s.next).filter s.connOpen).length = targetCount s N ∧
+    ((List.range s.next).filter s.pwOpen).length = targetCount s N ∧
+    ((List.range s.next).filter s.swOpen).length = targetCount s N ∧
+    (∀ g, s.next ≤ g → s.polling g = false ∧ s.connOpen g = false ∧ s.pwOpen g = false ∧ s.swOpen g = false) ∧
+    (∀ n, N ≤ n → s.targets n = none) := by
+  intro s
+  have hi : C16.Inv s := inv_afterR ops
+  have hc : Counts s N := counts_runR inv_init (counts_init N) ops hN
+  have tc : targetCount s N = cnt (presentB s) N := filter_range_length _ _
+  refine ⟨?_, ?_, ?_, ?_, ?_, ?_⟩
+  · rw [tc, ← hc.polling]; exact filter_range_length _ _
+  · rw [tc, ← hc.conn]; exact filter_range_length _ _
+  · rw [tc, ← hc.pw]; exact filter_range_length _ _
+  · rw [tc, ← hc.sw]; exact filter_range_length _ _
+  · intro g hg
+    have key : ∀ (b : Bool), (b = true → ∃ n, s.targets n = some g) → b = false := by
+      intro b hb
+      cases b with
+      | false => rfl
+      | true =>
+        obtain ⟨n, hn⟩ := hb rfl
+        have := (hi.live n g hn).1
+        omega
+    exact ⟨key _ (fun e => hi.owned _ (Or.inl e)), key _ (fun e => hi.owned _ (Or.inr (Or.inl e))),
+      key _ (fun e => hi.owned _ (Or.inr (Or.inr (Or.inl e)))), key _ (fun e => hi.owned _ (Or.inr (Or.inr (Or.inr e))))⟩
+  · intro n hn
+    exact absent_runR inv_init ops n (fun op ho e => Nat.lt_irrefl n (Nat.lt_of_lt_of_le (e ▸ hN op ho) hn)) rfl
+
+/-- Two concurrent `New(name)` never both succeed (atomic-step LTS, every interleaving): (a) two calls for one
+    name are never both past their LoadOrStore; (b) every live controller of the name — under construction, or
+    handed out and not closed — IS the map entry, so there is at most one; (c) while the name has an entry every
+    other `New(name)` loses with ErrAlreadyDialed and changes nothing; (d) when the name is free, the first
+    LoadOrStore wins and the next one loses. -/
+theorem C16_pool_new_exclusive (c : CState) (h : GB.LTS.Reachable cstep cinit c) (n : Name) :
+    (∀ g g', (n, g) ∈ c.pending → (n, g') ∈ c.pending → g = g') ∧
+    (∀ g, ((n, g) ∈ c.pending ∨ (g ∈ c.s.issued ∧ c.s.ctrlClosed g = false ∧ c.s.ctrlTarget g = n)) →
+      c.s.conns n = some g) ∧
+    (∀ g, c.s.conns n = some g → poolReserve c.s n = none ∧ cstep c (.reserve n) = some c) ∧
+    (c.s.conns n = none → ∃ c1, cstep c (.reserve n) = some c1 ∧ (n, c.s.next) ∈ c1.pending ∧
+      c1.s.conns n = some c.s.next ∧ cstep c1 (.reserve n) = some c1) := by
+  have hi := cinv_reachable c h
+  have live : ∀ g, ((n, g) ∈ c.pending ∨ (g ∈ c.s.issued ∧ c.s.ctrlClosed g = false ∧ c.s.ctrlTarget g = n)) →
+      c.s.conns n = some g := by
+    intro g hg
+    cases hg with
+    | inl hp => exact hi.pend n g hp
+    | inr hg =>
+      have i := hi.issuedOk g hg.1
+      have o := hi.openIn g (i.2.2 hg.2.1)
+      rw [hg.2.2] at o; exact o
+  refine ⟨?_, live, ?_, ?_⟩
+  · intro g g' hg hg'
+    have a := hi.pend n g hg
+    have b := hi.pend n g' hg'
+    rw [a] at b; cases b; rfl
+  · intro g hg
+    simp [cstep, poolReserve, hg]
+  · intro hn
+    refine ⟨_, by simp [cstep, poolReserve, hn]; rfl, by simp, by simp, ?_⟩
+    simp [cstep, poolReserve]
+
+example : GB.LTS.run cstep cinit [.reserve 0, .reserve 0, .finish 0 0 true, .reserve 0, .get 0] ≠ none := by decide
+/-- the second `New(0)` never got a controller of its own: there is nothing for it to finish -/
+example : GB.LTS.run cstep cinit [.reserve 0, .reserve 0, .finish 0 1 true] = none := by decide
+
+open GB.C16.Conn
+
+/-- `waitForReady` under the halved deadline: if the call context has a deadline `d` (not yet passed at `now`),
+    the wait always returns, never before `now`, after at most HALF of the remaining time, so at least the other
+    half (rounded up) is still left for the stream's own initialisation. -/
+theorem C16_stream_wait_at_most_half (now d : Nat) (c : Ctx) (a : Avail) (hd : c.deadline = some d) (hnow : now ≤ d) :
+    ∃ t1, waitReturn now c a = some t1 ∧ now ≤ t1 ∧ t1 - now ≤ (d - now) / 2 ∧
+      (d - now) - (d - now) / 2 ≤ d - t1 := by
+  cases a with
+  | readyAt t =>
+    by_cases h : t ≤ now
+    · exact ⟨now, by simp [waitReturn, h], Nat.le_refl _, by omega, by omega⟩
+    · refine ⟨min t (now + (d - now) / 2), by simp [waitReturn, h, halved, hd], ?_, ?_, ?_⟩ <;> omega
+  | connecting => exact ⟨now + (d - now) / 2, by simp [waitReturn, halved, hd], by omega, by omega, by omega⟩
+  | refusing => exact ⟨now + (d - now) / 2, by simp [waitReturn, halved, hd], by omega, by omega, by omega⟩
+
+/-- … and that other half is really usable: a connection that becomes Ready at ANY time before the deadline — also
+    in the second half, after `waitForReady` has given up — still yields a stream, no later than it became Ready;
+    a target that refuses connections is reported Unavailable exactly at half time; one that never answers ends
+    with DeadlineExceeded at the deadline (never later). -/
+theorem C16_stream_init_has_other_half (now d t : Nat) (c : Ctx) (hd : c.deadline = some d) :
+    (t < d → ∃ t', streamOpen now c (.readyAt t) = .ok t' (streamDeadline c) ∧ t' = max now t) ∧
+    streamOpen now c .refusing = .unavailable (now + (d - now) / 2) ∧
+    streamOpen now c .connecting = .deadlineExceeded d := by
+  refine ⟨?_, by simp [streamOpen, waitReturn, halved, hd], by simp [streamOpen, waitReturn, halved, hd]⟩
+  intro ht
+  by_cases h : t ≤ now
+  · exact ⟨now, by simp [streamOpen, waitReturn, h], by omega⟩
+  · by_cases h2 : t ≤ now + (d - now) / 2
+    · refine ⟨t, ?_, by omega⟩
+      have : min t (now + (d - now) / 2) = t := by omega
+      simp [streamOpen, waitReturn, h, halved, hd, this]
+    · refine ⟨t, ?_, by omega⟩
+      have : min t (now + (d - now) / 2) = now + (d - now) / 2 := by omega
+      have h3 : ¬ t ≤ now + (d - now) / 2 := h2
+      simp [streamOpen, waitReturn, h, halved, hd, this, h3, ht]
+
+/-- The stream context: it carries the call context's deadline iff the call context carries outgoing metadata;
+    otherwise it has NO deadline, whatever the call context's deadline is. Every established stream has it. -/
+theorem C16_stream_ctx_deadline (now : Nat) (c : Ctx) (a : Avail) :
+    (c.outMD = true → streamDeadline c = c.deadline) ∧ (c.outMD = false → streamDeadline c = none) ∧
+    (∀ t sd, streamOpen now c a = .ok t sd → sd = streamDeadline c) := by
+  refine ⟨fun h => by simp [streamDeadline, h], fun h => by simp [streamDeadline, h], ?_⟩
+  intro t sd h
+  unfold streamOpen at h
+  split at h
+  · cases h
+  · split at h
+    · split at h
+      · cases h; rfl
+      · split at h
+        · cases h; rfl
+        · split at h
+          · cases h; rfl
+          · cases h
+    · split at h <;> cases h
+    · cases h
+
+/-- Composed with `ProxyForwarder.baseContext`: through Forward the call context ALWAYS carries outgoing metadata, so
+    the stream context is derived from it and inherits its deadline; with a decodable grpc-timeout `d` (C12: the
+    first value, = the gRPC-spec reading) that deadline is at most `now + d`, and never later than a deadline the
+    incoming context already had: the target is never told a later deadline than the client asked for. -/
+theorem C16_forward_stream_deadline (now : Nat) (incoming : Ctx) (vals : List Bytes) :
+    let b := baseContext now incoming vals
+    b.outMD = true ∧ streamDeadline b = b.deadline ∧
+    (∀ d, GB.C12.callDeadline vals = some d → ∃ x, streamDeadline b = some x ∧ x ≤ now + d.toNat) ∧
+    (∀ p, incoming.deadline = some p → ∃ x, streamDeadline b = some x ∧ x ≤ p) ∧
+    (GB.C12.callDeadline vals = none → streamDeadline b = incoming.deadline) := by
+  intro b
+  have hmd : b.outMD = true := by
+    simp only [b, baseContext]; split <;> rfl
+  refine ⟨hmd, by simp [streamDeadline, hmd], ?_, ?_, ?_⟩
+  · intro d hd
+    simp only [b, baseContext, hd, streamDeadline]
+    cases incoming.deadline with
+    | none => exact ⟨_, rfl, Nat.le_refl _⟩
+    | some p => exact ⟨_, rfl, Nat.min_le_right _ _⟩
+  · intro p hp
+    simp only [b, baseContext, streamDeadline]
+    split
+    · simp [hp]; exact Nat.min_le_left _ _
+    · simp [hp]
+  · intro hn
+    simp only [b, baseContext, hn, streamDeadline]; simp
+
+/-- OBSERVATION (not a C16 violation; recorded against C12's "the target never observes a later deadline than the
+    client asked for"): a direct user of `AdaptedClientConn.Stream` whose context has a deadline but no outgoing
+    metadata gets a stream WITHOUT any deadline — the call deadline only bounds the initialisation. Witness. -/
+theorem C16_obs_direct_stream_without_md_has_no_deadline :
+    ∃ c : Ctx, c.deadline = some 4 ∧ c.outMD = false ∧ streamOpen 0 c (.readyAt 1) = .ok 1 none :=
+  ⟨{ deadline := some 4, outMD := false }, rfl, rfl, by decide⟩
+
+/-- Close racing Stream, every interleaving of any number of Stream and Close goroutines over the atomic steps
+    (state.Load / conn.Close / state.Store): no Stream ever dereferences a nil connection — each gets a working
+    stream, gRPC's own "connection is closing" error, or Unavailable; the state pointer is always one of the two
+    well-formed values, and `closed` implies the gRPC connection has been closed. -/
+theorem C16_conn_close_stream_safe (s : RState) (h : GB.LTS.Reachable rstep rinit s) :
+    (∀ i r, s.spc i = .done r → r = .stream ∨ r = .closingErr ∨ r = .unavailable) ∧
+    (s.ptr = PState.live ∨ s.ptr = PState.closed) ∧
+    (s.ptr = PState.closed → s.grpcClosed = true) := by
+  have hi := rinv_reachable s h
+  refine ⟨?_, hi.ptr_wf, hi.closed_grpc⟩
+  intro i r hr
+  have := hi.no_nil i r hr
+  cases r <;> simp at this ⊢
+
+/-- Closed is final: once `Close` has stored the closed state no step changes it, and every Stream that starts
+    afterwards answers Unavailable (running its three steps, whatever else is interleaved before them is covered by
+    the first clause). -/
+theorem C16_conn_closed_is_final (s : RState) (hc : s.ptr = PState.closed) :
+    (∀ l s', rstep s l = some s' → s'.ptr = PState.closed) ∧
+    (∀ i, s.spc i = .idle →
+      ∃ s3, GB.LTS.run rstep s [.stream i, .stream i, .stream i] = some s3 ∧ s3.spc i = .done .unavailable) := by
+  constructor
+  · intro l s' hs
+    cases l with
+    | stream i =>
+      simp only [rstep] at hs
+      split at hs <;> first | (cases hs; exact hc) | cases hs
+    | close j =>
+      simp only [rstep] at hs
+      split at hs
+      · cases hs; exact hc
+      · split at hs <;> (cases hs; exact hc)
+      · cases hs; rfl
+      · cases hs
+  · intro i hi
+    refine ⟨{ s with spc := upd (upd (upd s.spc i (.loaded s.ptr)) i (.waited s.ptr)) i (.done .unavailable) }, ?_, ?_⟩
+    · simp [GB.LTS.run, rstep, hi, hc, PState.closed]
+    · simp
+
+example : GB.LTS.run rstep rinit [.stream 0, .close 0, .close 0, .stream 0, .close 0, .stream 0, .stream 1, .stream 1, .stream 1]
+    ≠ none := by decide
+
+/-- A Stream attempt racing Close always ENDS (fixed code): `waitForReady` on the closed connection returns at once,
+    and in EVERY state of the race LTS every Stream goroutine that has not returned yet has an enabled
+    step — none is blocked by anything a Close goroutine does. -/
+theorem C16_conn_stream_racing_close_ends (s : RState) (dl : Bool) :
+    waitOnClosed true dl = .atOnce ∧
+    (∀ i, (∀ r, s.spc i ≠ .done r) → (rstep s (.stream i)).isSome = true) := by
+  refine ⟨rfl, ?_⟩
+  intro i hnd
+  simp only [rstep]
+  cases hp : s.spc i with
+  | idle => rfl
+  | loaded p => rfl
+  | waited p => rfl
+  | done r => exact absurd hp (hnd r)
+
+/-- Negative witness on the ORIGINAL `waitForReady`: a Stream whose context has no deadline and which loaded the
+    connection state just before Close closed the connection waits for ever (with a deadline: half of it). -/
+theorem C16_conn_original_wait_on_closed_conn_never_returns :
+    waitOnClosed false false = .never ∧ waitOnClosed false true = .atHalfDeadline := ⟨rfl, rfl⟩
